@@ -250,6 +250,8 @@ func runC05(c *Ctx) {
 	// R15 (shared with C17.R3): a set-attributes request does what os.Truncate/Chmod/Chown/Chtimes do with the values sent
 	// (which object FSETSTAT's calls name, and their order, are C17's known findings F37/F38 and are not repeated here)
 	c.withRule("R15", func() { checkSetstatApplication(c, false) })
+	// R16 (shared with C17.R1): Client.Chmod sends what os.Chmod would set — permission and special bits
+	c.withOnlyKeys("R1", "R16", []string{"toChmodPerm"}, func() { runC17(c) })
 
 	// ---------- R1 request -> os table ----------
 	top, specific := requestTypes(c, "R1")
